@@ -14,7 +14,7 @@ from analysis.rulelib import *
 from analysis.mir import show, short, calls_in
 from rules import dir_shared as ds, storage_shared as ss, c11
 EXPLANATION = __doc__
-FLOOR = 27
+FLOOR = 28
 EXC = {('akd::directory::Directory::publish', 'StorageManager::rollback_transaction'):
        'rollback after a failure that is itself returned to the caller'}
 
@@ -104,3 +104,15 @@ def request_locks(ctx):
             detail = 'cache_lock.read() guard `%s` covers all %d storage-touching steps of %s' % (rg['name'], len(touch), r) if ok else \
                 'the cache_lock read guard does not cover every storage access of %s (acquired-before-all=%s held-until-all=%s)' % (r, before, held)
         ctx.ob('C13.LOCK[%s]' % r, 'RF-ORDER', ok, b.path, where, detail, key='RF-ORDER|C13.LOCK|%s' % r)
+    # the reader/flush exclusion only works if requests and the poller take the SAME lock: clones of a directory
+    # (the poller typically runs on one) share storage and cache, so Clone must share cache_lock as well
+    # (seeded change C13-r1-a gave each clone a fresh RwLock)
+    from rules import c12
+    sh = c12.lock_shared_by_clones(ctx, 'self.cache_lock')
+    cl = prog.find('<Directory as Clone>::clone')
+    ctx.ob('C13.LOCK.shared_by_clones', 'RF-OWN', sh is True, cl[0].path if cl else ds.D + 'clone',
+           '%s:%s' % (cl[0].file, cl[0].line) if cl else None,
+           'Directory::clone shares cache_lock (an Arc): a poller on a clone excludes requests on every other clone' if sh is True else
+           'clones of a directory do not share cache_lock (%s): a flush by the change poller on one clone can interleave with a '
+           'request\'s cache fill on another, leaving records of the old epoch in the flushed cache' % sh,
+           key='RF-OWN|C13.LOCK.shared')
